@@ -49,6 +49,22 @@ def template_family():
                             "at": [["fill", "url(#u)", 0], ["fillref", "u", 0]] +
                                   ([["transform", shape_tf, 0]] if shape_tf else [])}
                     docs.append({"vb": [0, 0, 16, 16], "view": [0, 0, 16, 16], "root": [], "nodes": head + [rect]})
+    # focal points and centres given as percentages of a NON-SQUARE viewport (x: of its width, y: of its
+    # height), user space units, on transformed and untransformed shapes
+    for fx in (None, [25, 1, 1], [10, 1, 0]):
+        for fy in (None, [25, 1, 1], [75, 1, 1], [12, 1, 0]):
+            for cy in ([50, 1, 1], [10, 1, 0]):
+                for shape_tf in ([], [["translate", 3, 1]], [["scale", 1, 1, 2]]):
+                    at = [["gradientUnits", "userSpaceOnUse", 0], ["cx", [8, 1, 0], 0], ["cy", cy, 0], ["r", [7, 1, 0], 0]]
+                    if fx:
+                        at.append(["fx", fx, 0])
+                    if fy:
+                        at.append(["fy", fy, 0])
+                    docs.append({"vb": [0, 0, 16, 16], "view": [0, 0, 16, 32], "root": [], "nodes": [
+                        {"d": 1, "tag": "radialGradient", "id": "r", "at": at, "g": stops, "ref": ""},
+                        {"d": 1, "tag": "rect", "id": "", "g": [2, 2, 12, 13, -1, -1], "ref": "",
+                         "at": [["fill", "url(#r)", 0], ["fillref", "r", 0]] +
+                               ([["transform", shape_tf, 0]] if shape_tf else [])}]})
     return docs
 
 
